@@ -654,6 +654,13 @@ func (fr *Frame) havocLoopTargets(l *Loop, st *State) {
 		}
 		vc.warn("loop %d of %s havocs the whole heap (call or map update inside)", l.Ord, vc.prog.shortName(fr.fn))
 	}
+	if len(heapKeys) > 0 {
+		// stores inside the loop may have changed message objects any number of times
+		old := st.ghost(vc, "msgver")
+		nv := Var(freshName("g.msgver@loop"), SInt)
+		st.Ghost["msgver"] = nv
+		vc.addFact(st, Le(old, nv))
+	}
 	for k := range heapKeys {
 		st.Heap[k] = VarB(freshName(k+"@loop"), heapSort(k), vc.allocN+1000000)
 	}
